@@ -1,5 +1,6 @@
 import AdaVerif.Lemmas.Punycode
 import AdaVerif.Spec.Host
+import AdaVerif.Lemmas.PunyRound
 /-
 C16 — IDNA results are stable under equivalent spellings and round trips.
 
@@ -40,5 +41,38 @@ theorem ascii_branch_idempotent (idna : Spec.Idna) (d r : Bytes) (h1 : Spec.isAs
 /-- ASCII case does not matter on the ASCII branch -/
 theorem ascii_branch_case_insensitive (d : Bytes) : (d.map toLowerByte).map toLowerByte = d.map toLowerByte := by
   simp [List.map_map, Function.comp_def, lower_idem]
+
+/-! ### Punycode round trip
+
+`Model/Punycode.lean` transcribes `utf32_to_punycode` and `punycode_to_utf32` (bias adaptation, generalized
+variable-length integers, the insertion loop, every int32 guard) and is run against the real functions on every check.
+The round trip is a theorem for every list of code points, not only for the generated ones (`Lemmas/PunyRound.lean`,
+750 lines): the encoder's scan for the value `m` and the decoder stay in step - the decoder's list is what lies below
+`m` plus the occurrences of `m` already passed, and `i + delta = (m - n) * (h + 1) + (number of those in front of the
+scan point)`, so every delta lands the insertion exactly at the scan point; both sides feed the same arguments to
+`adapt`. -/
+
+open AdaVerif.Model.Puny AdaVerif.Lemmas.Puny in
+/-- **ToASCII∘ToUnicode core**: whatever `punycode_to_utf32` answers on the output of `utf32_to_punycode` is the
+    original list of code points (labels of up to 2^31-1 code points) -/
+theorem punycode_roundtrip (s : List Nat) (e : Bytes) (r : List Nat) (hs : s.length ≤ intMax) (he : e.length < intMax)
+    (henc : encode s = some e) (hdec : decode e = some r) : r = s :=
+  roundtrip s e r hs he henc hdec
+
+open AdaVerif.Model.Puny AdaVerif.Lemmas.Puny in
+/-- ... and the decoder's arithmetic, its int32 guards and the "xn--" refusal aside, always gives the list back -/
+theorem punycode_roundtrip_arithmetic (s : List Nat) (e : Bytes) (hs : s.length ≤ intMax) (henc : encode s = some e) :
+    decodeU e = some s :=
+  roundtripU s e hs henc
+
+open AdaVerif.Model.Puny AdaVerif.Lemmas.Puny in
+/-- the real decoder only ever rejects: when it answers, the guard-free arithmetic gives the same answer -/
+theorem punycode_guards_only_reject (e : Bytes) (r : List Nat) (he : e.length < intMax) (h : decode e = some r) :
+    decodeU e = some r :=
+  decode_sound e r he h
+
+open AdaVerif.Model.Puny in
+example : (encode [0x4ED6, 0x4EEC, 0x70BA, 0x4EC0, 0x4E48, 0x4E0D, 0x8BF4, 0x4E2D, 0x6587]).bind decode =
+    some [0x4ED6, 0x4EEC, 0x70BA, 0x4EC0, 0x4E48, 0x4E0D, 0x8BF4, 0x4E2D, 0x6587] := by decide +kernel
 
 end AdaVerif.Props.C16
